@@ -6,7 +6,7 @@ from .. import oracle as o
 
 ID = 'C07'
 RULE = ('one record per decrypt attempt (one-shot and incremental with 2 partitions); verdict must be true iff the supplied tag equals the '
-        'RFC 8439 tag of the inputs as submitted (incremental deliveries include a short misaligning piece followed by 16-byte-multiple pieces); tuples include ciphertexts solved so that the Poly1305 accumulator hits carry-rippling patterns (valid tag and tag +- 2^k); from each valid tuple: all 128 single-bit tag flips, multi-byte tag changes whose XOR cancels, '
+        'RFC 8439 tag of the inputs as submitted (incremental deliveries include a short misaligning piece followed by 16-byte-multiple pieces; the Tag object of the caller is kept at byte offsets 0..31 of an aligned record); tuples include ciphertexts solved so that the Poly1305 accumulator hits carry-rippling patterns (valid tag and tag +- 2^k); from each valid tuple: all 128 single-bit tag flips, multi-byte tag changes whose XOR cancels, '
         'complemented tag, sampled bit flips in ciphertext / AAD / nonce / key, truncation and extension, bytes moved across the AAD|ciphertext '
         'boundary, swapped lengths, foreign tag, zero tag, and the unmodified tuple; distinct = (interface, mutation kind, position)')
 ASSUMPTIONS = ['AEAD model of C06']
@@ -15,14 +15,18 @@ THOROUGH_ROUNDS = 100   # thorough tier: generator passes with derived seeds (ru
 EXTRA_CFGS = ['f32']   # the workload is also executed by the force-32bits build of the library; results must not change (runner.standard_check)
 
 
+TAG_OFFSETS = [0, 1, 2, 3, 4, 5, 6, 7, 8, 9, 10, 11, 12, 13, 14, 15, 16, 17, 20, 24, 31]   # compiled into the driver (harness/src/aead.rs finalize_at)
+
+
 def dec_lines(rng, rounds, key, nonce, aad, ct, tag, kind):
     k, nn = key.hex(), nonce.hex()
     hx = lambda b: b.hex() or '-'
     yield 'aead_dec %d %s %s %s %s %s #%s' % (rounds, k, nn, hx(aad), hx(ct), tag.hex(), kind)
     # incremental, data delivered via decrypt and decrypt_mut in two pieces
     c1 = rng.rng(0, len(ct)); a1 = rng.rng(0, len(aad))
-    yield 'aead_inc %d %s %s a.%s a.%s D %s.%s %s.%s fin.%s #%s' % (
-        rounds, k, nn, hx(aad[:a1]), hx(aad[a1:]), rng.choice(['d', 'dm']), hx(ct[:c1]), rng.choice(['d', 'dm']), hx(ct[c1:]), tag.hex(), kind)
+    # the caller's Tag object lives at a varying byte offset (Tag has alignment 1; the verdict must not depend on where it is kept)
+    yield 'aead_inc %d %s %s a.%s a.%s D %s.%s %s.%s fin.%s.%d #%s' % (
+        rounds, k, nn, hx(aad[:a1]), hx(aad[a1:]), rng.choice(['d', 'dm']), hx(ct[:c1]), rng.choice(['d', 'dm']), hx(ct[c1:]), tag.hex(), rng.choice(TAG_OFFSETS), kind)
     if kind in ('valid', 'valid-directed-accumulator', 'tag-zero', 'tag-last-byte') or kind.startswith(('ct-bit', 'aad-bit')):
         # a short piece that leaves the MAC input misaligned, followed by pieces whose length is a multiple of 16
         a1 = min(len(aad), rng.choice([1, 4, 7])); a2 = a1 + 16 * ((len(aad) - a1) // 16)
@@ -74,6 +78,14 @@ def gen(tier, seed):
                         t2 = ((int.from_bytes(tag, 'little') + sgn * delta) % (1 << 128)).to_bytes(16, 'little')
                         yield from dec_lines(rng, 20, key, nonce, aad, ct, t2, 'tag-plus-minus-2^k')
                 break
+    # every placement of the caller's Tag: the right tag is accepted, a tag differing in one byte (each byte in turn) is refused
+    rounds, key, nonce, aad, ct, tag = tuples[0]
+    for off in TAG_OFFSETS:
+        hx = lambda b: b.hex() or '-'
+        yield 'aead_inc %d %s %s a.%s D d.%s fin.%s.%d #tag-placed-valid/%d' % (rounds, key.hex(), nonce.hex(), hx(aad), hx(ct), tag.hex(), off, off)
+        for pos in range(16):
+            t = bytearray(tag); t[pos] ^= 1 << rng.below(8)
+            yield 'aead_inc %d %s %s a.%s D d.%s fin.%s.%d #tag-placed-onebyte/%d' % (rounds, key.hex(), nonce.hex(), hx(aad), hx(ct), bytes(t).hex(), off, off)
     for ti, (rounds, key, nonce, aad, ct, tag) in enumerate(tuples):
         D = lambda *a: dec_lines(rng, rounds, *a)
         yield from D(key, nonce, aad, ct, tag, 'valid')
